@@ -138,3 +138,24 @@ Print Assumptions C09_heap_refines_values.
 
 Example C09_nonvacuous : good 0 1 ([0; 1/4; 1], [1; -2]) /\ good 0 1 ([0; 1/2; 3/4; 1], [3; 0; 1]).
 Proof. unfold good, wf_pwc, wf_x, nthF, lastF; cbn [fst snd length nth last]; repeat split; try lia; try reflexivity; valid_tac. Qed.
+
+(* ---- executed instance (Q, extracted to OCaml and run against /repo) = the real-number functions
+   the theorems above are about: kernel-checked parametricity bridge (Bridge.v).  qL = map Q2R etc. ---- *)
+From Coq Require Import QArith Qreals.
+From PS Require Import Bridge.
+Local Close Scope Q_scope.
+Theorem C09_exec_pwc_add_transfer : forall f g : pwc, rmap qLL (pwc_add QOps f g) = pwc_add ROps (qLL f) (qLL g).
+Proof. exact pwc_add_transfer. Qed.
+Print Assumptions C09_exec_pwc_add_transfer.
+Theorem C09_exec_pwl_add_transfer : forall f g : pwl, rmap qLLL (pwl_add QOps f g) = pwl_add ROps (qLLL f) (qLLL g).
+Proof. exact pwl_add_transfer. Qed.
+Print Assumptions C09_exec_pwl_add_transfer.
+Theorem C09_exec_pwc_add_spec_transfer : forall f g : list Q * list Q, qLL (pwc_add_spec QOps f g) = pwc_add_spec ROps (qLL f) (qLL g).
+Proof. exact pwc_add_spec_transfer. Qed.
+Print Assumptions C09_exec_pwc_add_spec_transfer.
+Theorem C09_exec_pwl_add_spec_transfer : forall f g : list Q * list Q * list Q, qLLL (pwl_add_spec QOps f g) = pwl_add_spec ROps (qLLL f) (qLLL g).
+Proof. exact pwl_add_spec_transfer. Qed.
+Print Assumptions C09_exec_pwl_add_spec_transfer.
+Theorem C09_exec_pwc_mul_transfer : forall (f : pwc) (c : Q), qLL (pwc_mul QOps f c) = pwc_mul ROps (qLL f) (Q2R c).
+Proof. exact pwc_mul_transfer. Qed.
+Print Assumptions C09_exec_pwc_mul_transfer.
